@@ -3,7 +3,9 @@
    for every exported method of the session type the SET of event traces over all syntactic paths, with all
    same-package helpers and closures inlined: sync.Map calls, Mutex Lock/Unlock (by variable, numbered by
    first appearance), reads/writes of the fields of the mutex-carrying struct, calls through the package's
-   exported interfaces (FileSys, Dirent, File, AuthFile), deferred calls at the return.  Gen/GenSessLock.v
+   exported interfaces (FileSys, Dirent, File, AuthFile), deferred calls at the return; conditions are followed
+   as Go evaluates them (short-circuit && || !, a tagless switch = its if-chain) and a repeated read of a
+   field within one lock epoch counts once.  Gen/GenSessLock.v
    publishes per method the number of traces and the SHA-256 of their sorted text (and the traces in a
    comment).  Below are the values for the source the programs of Model/SessLock.v were transcribed from
    (/repo e9fb232; the traces themselves: design/C14-skeleton.txt).
@@ -11,7 +13,8 @@
    The lemma fails to compile as soon as some path's event sequence changes: a return added between a Lock
    and its defer, a moved or dropped Unlock, another table or FileSys action, a field access moved out of
    the lock, TryLock for Lock.  It does NOT fail for renames of anything unexported, re-ordered
-   declarations, declaration style, helpers extracted or inlined, comments (neutral/a1..c6).  When it fails:
+   declarations, declaration style, helpers extracted or inlined, merged/split/inverted conditions, switch
+   for if-chain, comments (neutral/a1..e6).  When it fails:
    diff the comment of Gen/GenSessLock.v against design/C14-skeleton.txt, re-read the function,
    re-transcribe its program, re-run [wf_prog_of], then replace the method's line here. *)
 From Coq Require Import List String.
@@ -20,19 +23,19 @@ Import ListNotations.
 Open Scope string_scope.
 
 Definition transcribed_skeleton : list (string * nat * string) :=
-  [ ("Attach", 51%nat, "78d381eef8348acf1d0a6d3cdc981433873c4ef781ede7663801c4adabe3e271");
+  [ ("Attach", 47%nat, "6be1aa19b36ec93223881def752a6ddc39b44b009bdd42a9131c7bb956e860fa");
     ("Auth", 9%nat, "0be1c8fb58f7b5a66bfc4ca71440b745abd009a7339e1b461a1763dc0de26574");
-    ("Clunk", 5%nat, "6db9cb4cb8ae18f04bb8db6f8240fd15e201923a26053bdafbdcb3d33890f7db");
-    ("Create", 76%nat, "c7ebecf40f76c05d116d284ca56b2e4b39e1336d3a700e34b5f374e74c157caa");
-    ("Open", 44%nat, "07ff85e22efecf01a35bc64c49c9e7f2f81847217b67742c37f5f002efc943e4");
-    ("Read", 16%nat, "a760c702daf7d2d519ee15f5e5f89c0265556b2cf373d55842036166290b8568");
-    ("Remove", 5%nat, "6db9cb4cb8ae18f04bb8db6f8240fd15e201923a26053bdafbdcb3d33890f7db");
-    ("Stat", 8%nat, "1997820f3e74ed655b1532021cfd15719e66aba410b0d0ea3dd9f12e59912ed4");
-    ("Stop", 5%nat, "34194af991a68d43985b39c9c2961b19f2e27fa2c2d43f30d6ad2b0a526be0f6");
+    ("Clunk", 5%nat, "e9f77e322b4fa09a4fca067724835e91d7b8addb8a3a6b1bbfa3d1b554e020c8");
+    ("Create", 76%nat, "fb4e5339dcda9a60f78a211963da1a4ef2c53c5b1a3b400e39322b7c9f59c1dc");
+    ("Open", 44%nat, "210457cab7f2c1419546542ac9fca03212e6d2420218bdbc616413099ef7c9bb");
+    ("Read", 16%nat, "3a5520f1172109c37ce0f663d5a789bfe365fb2eaa0b4b77556081153013b653");
+    ("Remove", 5%nat, "e9f77e322b4fa09a4fca067724835e91d7b8addb8a3a6b1bbfa3d1b554e020c8");
+    ("Stat", 8%nat, "85e484b26a7dd1fce596b92cef393caacfd1782c440b8852e437adb70c9c6112");
+    ("Stop", 5%nat, "58ef7f09fcf32c77a69f67f0d0b6751f9d619d1d7cd37a9aa04cda6def16bdaa");
     ("Version", 1%nat, "85e4aea19de2d285c91b909a8dcd3d895ad511f5c888998471db1734c996c1ee");
-    ("WStat", 8%nat, "a6d12da1ada1507cd10e386e8ca025f6b1eee81e7ea97da3a04a2e871d9c24ac");
-    ("Walk", 163%nat, "26ccca3e545123cfcfc179959375a00984af16762123c8b44c721a3fb4ed323d");
-    ("Write", 16%nat, "083ef0f91d5376f292d2a13350d6c776abb8d19a06f5c3967f78e11b0f87c96d") ].
+    ("WStat", 8%nat, "646598e027059189f17590c915686a942d17833a6b31349dc131fa68d165e382");
+    ("Walk", 163%nat, "101ef9de12397d8bc32379968d056ea095dca82f04b8664887c57c8bc262638f");
+    ("Write", 16%nat, "5a3217737b94aea02068cda9ec69f550ea9a9d9abedc4b5f300159ed6bebc1d3") ].
 
 Lemma skeleton_unchanged : sesslock_skeleton = transcribed_skeleton.
 Proof. reflexivity. Qed.
